@@ -20,6 +20,7 @@
 from __future__ import annotations
 
 import ast
+import copy
 import itertools
 from fractions import Fraction
 from typing import Any, Callable, Dict, List, Optional, Sequence, Tuple
@@ -419,3 +420,60 @@ def sym_paths(stmts: Sequence[ast.stmt], env: Optional[Dict[str, Affine]] = None
             return out
         env = straight_line_env([stmt], env)
     return [Path(conds, env, None, "fall")]
+
+
+# ------------------------------------------------ expression-level symbolic execution
+class _Subst(ast.NodeTransformer):
+    def __init__(self, env: Dict[str, ast.AST]) -> None:
+        self.env = env
+
+    def visit_Name(self, node: ast.Name) -> ast.AST:  # noqa: N802
+        if isinstance(node.ctx, ast.Load) and node.id in self.env:
+            return copy.deepcopy(self.env[node.id])
+        return node
+
+
+def subst(expr: ast.AST, env: Dict[str, ast.AST]) -> ast.AST:
+    return _Subst(env).visit(copy.deepcopy(expr))
+
+
+def expr_paths(stmts: Sequence[ast.stmt], env: Optional[Dict[str, ast.AST]] = None,
+               conds: Optional[list] = None, limit: int = 64):
+    """ paths of a block of plain-name assignments and if/else arms, with every local replaced by the expression it
+        holds on that path: a list of (conditions [(expr, truth)], env, kind) with kind 'fall', 'jump' (continue/break),
+        'return' or 'raise'.  Augmented assignments become binary operations; statements that bind nothing (asserts,
+        expression statements) are skipped; anything else that can assign is outside the fragment. """
+    env = dict(env or {})
+    conds = list(conds or [])
+    for index, stmt in enumerate(stmts):
+        if isinstance(stmt, ast.Return):
+            return [(conds, env, "return")]
+        if isinstance(stmt, ast.Raise):
+            return [(conds, env, "raise")]
+        if isinstance(stmt, (ast.Continue, ast.Break)):
+            return [(conds, env, "jump")]
+        if isinstance(stmt, ast.If):
+            rest = list(stmts[index + 1:])
+            test = subst(stmt.test, env)
+            out = []
+            for arm, pol in ((stmt.body, True), (stmt.orelse, False)):
+                for sub_conds, sub_env, kind in expr_paths(list(arm), env, conds + [(test, pol)], limit):
+                    if kind == "fall":
+                        out.extend(expr_paths(rest, sub_env, sub_conds, limit))
+                    else:
+                        out.append((sub_conds, sub_env, kind))
+                    if len(out) > limit:
+                        raise OutsideFragment("too many paths")
+            return out
+        if isinstance(stmt, ast.Assign) and len(stmt.targets) == 1 and isinstance(stmt.targets[0], ast.Name):
+            env[stmt.targets[0].id] = subst(stmt.value, env)
+        elif isinstance(stmt, ast.AnnAssign) and isinstance(stmt.target, ast.Name) and stmt.value is not None:
+            env[stmt.target.id] = subst(stmt.value, env)
+        elif isinstance(stmt, ast.AugAssign) and isinstance(stmt.target, ast.Name):
+            current = env.get(stmt.target.id, ast.Name(id=stmt.target.id, ctx=ast.Load()))
+            env[stmt.target.id] = ast.BinOp(left=copy.deepcopy(current), op=stmt.op, right=subst(stmt.value, env))
+        elif isinstance(stmt, (ast.Assert, ast.Expr, ast.Pass)):
+            continue
+        else:
+            raise OutsideFragment(f"statement outside the fragment: {ast.unparse(stmt)[:60]}")
+    return [(conds, env, "fall")]
